@@ -514,8 +514,27 @@ pub struct Harvest {
 }
 
 pub fn sha256_b64(s: &str) -> String {
-    use sha2::{Digest, Sha256};
-    crate::real::b64url_encode(&Sha256::digest(s.as_bytes()))
+    digest_b64("sha-256", s)
+}
+
+/// base64url of the hash of `s` under an `_sd_alg` name (unknown names hash as sha-256; callers check the name)
+pub fn digest_b64(alg: &str, s: &str) -> String {
+    use sha2::{Digest, Sha256, Sha384, Sha512};
+    match alg {
+        "sha-384" => crate::real::b64url_encode(&Sha384::digest(s.as_bytes())),
+        "sha-512" => crate::real::b64url_encode(&Sha512::digest(s.as_bytes())),
+        _ => crate::real::b64url_encode(&Sha256::digest(s.as_bytes())),
+    }
+}
+
+/// the digest algorithm a payload declares (`_sd_alg`; absent = the specification's default sha-256);
+/// `None` when it declares something else than the three supported names
+pub fn declared_sd_alg(payload: &Value) -> Option<String> {
+    match payload.get("_sd_alg") {
+        None => Some("sha-256".to_string()),
+        Some(Value::String(s)) if ["sha-256", "sha-384", "sha-512"].contains(&s.as_str()) => Some(s.clone()),
+        _ => None,
+    }
 }
 
 fn placeholder_digest(v: &Value) -> Option<String> {
@@ -532,14 +551,14 @@ impl Node {
     /// about the order of the disclosures in the token or about where decoys go. This is witness
     /// search only: the Lean driver recomputes digests, payload and well-formedness from the result,
     /// and the comparison with the real payload is made on that.
-    pub fn harvest(&mut self, payload: &Value, discs: &[String]) -> Harvest {
+    pub fn harvest(&mut self, payload: &Value, discs: &[String], alg: &str) -> Harvest {
         let mut table: DiscTable = Default::default();
         for (i, d) in discs.iter().enumerate() {
             let decoded = crate::real::b64url_decode(d)
                 .and_then(|b| serde_json::from_slice::<Value>(&b).ok())
                 .and_then(|v| v.as_array().cloned())
                 .unwrap_or_default();
-            table.entry(sha256_b64(d)).or_insert((i, decoded));
+            table.entry(digest_b64(alg, d)).or_insert((i, decoded));
         }
         self.for_each_mark_mut(&mut |m| if let Mark::Marked { disc, .. } = m { *disc = None; });
         let mut h = Harvest::default();
